@@ -4,7 +4,7 @@ CONSTANTS
   AllSchedules = FALSE
   PermuteModules = FALSE
   NB0 = {0, 1, 2, 3}
-  Variants = {"none", "same", "ext", "extm0", "emptyblk", "trunc", "swap", "rename", "recv", "ptype", "pcount", "ret", "cc", "argname", "vis", "doc"}
+  Variants = {"none", "same", "ext", "extm0", "emptyblk", "trunc", "short", "swap", "rename", "recv", "ptype", "pcount", "ret", "cc", "argname", "vis", "doc"}
   WithB1 = {FALSE, TRUE}
   B1Vft = {FALSE, TRUE}
   Clash = {"no", "derived"}
